@@ -11,9 +11,11 @@ import (
 	"encoding/hex"
 	"encoding/json"
 	"fmt"
+	"io"
 	"net"
 	"os"
 	"sync"
+	"syscall"
 	"testing"
 	"time"
 
@@ -46,6 +48,8 @@ type c03Case struct {
 	Chunks [][2]int  `json:"chunks"` // [arrival ms, length]; length -1 = the rest
 	Regs   []vfOther `json:"regs"`
 	Kind   string    `json:"kind"`
+	FinMs  int       `json:"fin_ms"`   // > 0: the peer closes its side at this instant (after its last chunk)
+	FinRst bool      `json:"fin_rst"`  // ... with a reset instead of a FIN
 }
 
 type c03Read struct {
@@ -74,6 +78,7 @@ type c03Res struct {
 	Reveals    []vfReveal   `json:"reveals"`
 	Marks      []vfMark     `json:"marks"`
 	Panic      string       `json:"panic"`
+	V6         bool         `json:"v6"`
 	Status     int          `json:"status"` // used/unused state of the registration a transport returned (-1: none returned)
 }
 
@@ -93,6 +98,8 @@ type c03Conn struct {
 	deadline time.Time
 	changed  chan struct{}
 	closed   bool
+	fin      time.Duration // > 0: peer FIN / RST at this instant
+	finRst   bool
 	res      *c03Res
 	hardStop time.Time
 }
@@ -147,6 +154,16 @@ func (c *c03Conn) Read(p []byte) (int, error) {
 			c.mu.Unlock()
 			return 0, os.ErrDeadlineExceeded
 		}
+		if c.fin > 0 && c.idx >= len(c.script) && !now.Before(c.start.Add(c.fin)) {
+			if c.finRst {
+				c.res.Reads = append(c.res.Reads, c03Read{T: c.ms(now), Err: "rst"})
+				c.mu.Unlock()
+				return 0, &net.OpError{Op: "read", Net: "tcp", Err: os.NewSyscallError("read", syscall.ECONNRESET)}
+			}
+			c.res.Reads = append(c.res.Reads, c03Read{T: c.ms(now), Err: "eof"})
+			c.mu.Unlock()
+			return 0, io.EOF
+		}
 		if !now.Before(c.hardStop) {
 			c.res.Reads = append(c.res.Reads, c03Read{T: c.ms(now), Err: "hardstop"})
 			c.mu.Unlock()
@@ -160,6 +177,11 @@ func (c *c03Conn) Read(p []byte) (int, error) {
 		}
 		if !c.deadline.IsZero() && c.deadline.Before(wake) {
 			wake = c.deadline
+		}
+		if c.fin > 0 && c.idx >= len(c.script) {
+			if t := c.start.Add(c.fin); t.Before(wake) {
+				wake = t
+			}
 		}
 		ch := c.changed
 		c.mu.Unlock()
@@ -306,6 +328,7 @@ func c03Run(s *vfStation, cs c03Case, wg *sync.WaitGroup, out *c03Res) {
 		}
 	}()
 	phantom := s.freshPhantom()
+	out.V6 = phantom.To4() == nil
 	if err := s.addOthers(cs.Regs, phantom); err != nil {
 		out.Err = err.Error()
 		return
@@ -316,7 +339,7 @@ func c03Run(s *vfStation, cs c03Case, wg *sync.WaitGroup, out *c03Res) {
 		return
 	}
 	out.StreamLen = len(stream)
-	conn := &c03Conn{changed: make(chan struct{}), res: out}
+	conn := &c03Conn{changed: make(chan struct{}), res: out, fin: time.Duration(cs.FinMs) * time.Millisecond, finRst: cs.FinRst}
 	off := 0
 	for _, ch := range cs.Chunks {
 		n := ch[1]
